@@ -208,7 +208,9 @@ def stylesheet(case):
         parts.append('<xsl:namespace-alias stylesheet-prefix="%s" result-prefix="%s"/>' % tuple(case['alias']))
     parts.append('<xsl:attribute-set name="s1"%s>%s</xsl:attribute-set>' % (' use-attribute-sets="s2"' if case['s1_uses_s2'] else '', ''.join(attr_text(a) for a in case['sets']['s1'])))
     parts.append('<xsl:attribute-set name="s2">%s</xsl:attribute-set>' % ''.join(attr_text(a) for a in case['sets']['s2']))
-    parts.append('<xsl:template match="/"><out xmlns="">%s</out></xsl:template></xsl:stylesheet>' % instr_text(case['top']))
+    # the wrapper is in no namespace; xmlns="" is only written when there is a default namespace to undeclare, so that both ways of
+    # "no default namespace in scope" (never declared / undeclared) are exercised
+    parts.append('<xsl:template match="/"><out%s>%s</out></xsl:template></xsl:stylesheet>' % (' xmlns=""' if case['default_ns'] else '', instr_text(case['top'])))
     return ''.join(parts)
 
 
